@@ -226,8 +226,8 @@ var c29Wrappers = []func(s, q string) string{
 }
 
 // c29OwnPrograms lists the own programs: each statement alone, in every
-// wrapper, and ordered pairs (quick: second statement from the Env list or
-// every other tree statement; deep: every ordered pair, also inside a
+// wrapper, and ordered pairs (quick: second statement from the Env list;
+// deep: every ordered pair, also inside a
 // function called twice and inside a loop).
 func c29OwnPrograms(deep bool) []string {
 	stmts := c29Stmts()
@@ -256,9 +256,8 @@ func c29OwnPrograms(deep bool) []string {
 	}
 	for _, a := range stmts {
 		for j, b := range stmts {
-			// quick: the second statement is every other tree statement or
-			// any Env statement
-			if !deep && j < len(c29TreeStmts) && j%2 == 1 {
+			// quick: the second statement is an Env statement
+			if !deep && j < len(c29TreeStmts) {
 				continue
 			}
 			add(a + "\n" + b)
